@@ -128,10 +128,19 @@ pub fn run(args: &[String]) {
             } }
             let mut indptr = vec![0usize];
             let mut indices = vec![];
-            for c in 0..n { for r in 0..n { if pm[r][c] != 0 { indices.push(r); } } indptr.push(indices.len()); }
+            // every other pattern is handed over with the row indices of each column in shuffled storage order (a CSC matrix
+            // need not have sorted indices: products of sparse matrices and hand-built ones do not)
+            let unsorted = id % 2 == 0;
+            for c in 0..n {
+                let mut rows: Vec<usize> = (0..n).filter(|r| pm[*r][c] != 0).collect();
+                if unsorted { for i in (1..rows.len()).rev() { let j = rng.below(i + 1); rows.swap(i, j); } }
+                indices.extend(rows);
+                indptr.push(indices.len());
+            }
             let js = |v: &Vec<usize>| v.iter().map(|x| x.to_string()).collect::<Vec<_>>().join(",");
-            writeln!(cf, "{{\"type\":\"group\",\"id\":{},\"n\":{},\"P\":[{}],\"method\":\"{}\"}}", id, n,
+            writeln!(cf, "{{\"type\":\"group\",\"id\":{},\"n\":{},\"P\":[{}],\"unsorted\":{},\"indptr\":[{}],\"indices\":[{}],\"method\":\"{}\"}}", id, n,
                 pm.iter().map(|r| format!("[{}]", r.iter().map(|x| x.to_string()).collect::<Vec<_>>().join(","))).collect::<Vec<_>>().join(","),
+                unsorted, js(&indptr), js(&indices),
                 if rng.chance(0.5) { "BDF" } else { "Radau" }).unwrap();
             writeln!(of, "group n={} indptr={} indices={}", n, js(&indptr), if indices.is_empty() { "-".into() } else { js(&indices) }).unwrap();
             nops += 1;
